@@ -163,7 +163,7 @@ bombs, cycles, predictor geometry, ASCII85, inline-image geometry, CMap soups); 
 with overflow checks. Outcome must be ok/err; `load` outcomes are also compared with the Lean reader model. Non-trivial = every case, distinct by case text.".into();
     let mut counters = Counters::new();
     let mut cases: Vec<(String, String, u64)> = vec![];   // (stream, case, case_id)
-    let n_mut = c.n(700, 12000);
+    let n_mut = c.n(4000, 40000);
     for i in 0..n_mut {
         let Some(mut r) = c.case("mutate", i) else { continue };
         let mut b = valid_file(&mut r, &mut counters);
@@ -172,7 +172,7 @@ with overflow checks. Outcome must be ok/err; `load` outcomes are also compared 
         let entry = match r.below(8) { 0 => "I", 1 => "C", _ => "L" };
         cases.push(("mutate".into(), format!("{} {}", entry, hex_tok(&b)), c.cur));
     }
-    let n_adv = c.n(500, 8000);
+    let n_adv = c.n(2500, 25000);
     for i in 0..n_adv {
         let Some(mut r) = c.case("adversarial", i) else { continue };
         let (stream, case) = adversarial(&mut r, i);
